@@ -285,8 +285,19 @@ def extract(unit, ex):
         info["sig"] = text_of(toks[s:bo])
     elif kind == "block":
         # fragment of a function: the {...} following the nth occurrence of a token sequence inside fn `within`
-        s, bo, bc = R.find_fn_anywhere(toks, m, ex["within"])
-        if "after" in ex:
+        s, bo, bc = R.find_fn_anywhere(toks, m, ex["within"], ex.get("within_nth", 0))
+        if "expr_from" in ex:
+            # an expression `SEQ {...}` (e.g. `match x.as_str() { arms }`): the token sequence and the brace group that follows it, lifted as the body's value
+            q = pat(ex["expr_from"])
+            occ = find_all_seq(toks, q, bo, bc)
+            if len(occ) <= ex.get("nth", 0): raise ExtractError("anchor lost: %r in %s" % (ex["expr_from"], ex["within"]))
+            o = occ[ex.get("nth", 0)]
+            j = o + len(q)
+            if toks[j].s != "{": raise ExtractError("anchor %r is not followed by a block" % ex["expr_from"])
+            frag = [t.copy() for t in toks[o:m[j] + 1]]
+            fstart = o
+            info["anchor"] = "block:%s[%d]/expr-from:%r" % (ex["within"], ex.get("within_nth", 0), ex["expr_from"])
+        elif "after" in ex:
             o, c = R.nth_block_after(toks, m, ex["after"], ex.get("nth", 0), bo, bc)
             frag = [t.copy() for t in toks[o + 1:c]]
             fstart = o
